@@ -33,6 +33,7 @@ RULES = [
     Rule('C03.R9', 'a loop jump of the sequencer keeps the time the running tick still owes (the audio loop and Tick terminate because the owed time only shrinks)', 3),
     Rule('C03.R10', 'every stdio operation on a FILE* member that comes from fopen() is dominated by a NULL test of that member', 10),
     Rule('C03.R11', 'every pointer parameter of an exported function is tested against NULL before it is dereferenced', 60),
+    Rule('C03.R12', 'loops over the chip vector are bounded by the live chip count (OPN2::m_numChips / m_chips.size()), not by the requested one', 3),
     Rule('C03.R7', 'every access through a caller-provided (buffer, size) pair stays below the size', 20),
 ]
 EXPLANATION = ('Interval abstract interpretation (engine E2) of every reachable function of the core units: parameter ranges are the C types\' ranges for '
@@ -120,6 +121,8 @@ def analyse(facts, tier):
     obls += r10_file_streams(facts)
     obls += r5_null_strings(facts)
     obls += r11_null_params(facts)
+    obls += r12_chip_loops(facts)
+    obls += r4_rate_divisors(facts)
     if res['leaf_seen'] < 0.97 * res['leaf_total']:
         raise build.AnalysisBroken('E2 reached only %d of %d statements: the interpreter is dropping paths' % (res['leaf_seen'], res['leaf_total']))
     return obls, {'e2_functions': res['functions'], 'e2_seconds': round(res['secs'], 2), 'field_ranges': len(res['field_ranges']),
@@ -688,6 +691,17 @@ def r10_file_streams(facts):
                 out.append(Obl('C03.R10', fn.name, '%s(.. %s ..)' % (cn, short(hit['n'])), st['loc'], 'discharged' if ok else 'finding',
                                why='dominated by a test of %s' % short(hit['n']) if ok else
                                '%s is NULL when the output file cannot be created (fopen failed; the assert is compiled out): %s() on a NULL stream crashes inside opn2_switchEmulator / opn2_close' % (short(hit['n']), cn)))
+    # the stream may legitimately be NULL: asserting it turns an environment condition into an abort (visible in the views that
+    # keep assert(): the thorough tier analyses -UNDEBUG)
+    for fn in facts.all_fns():
+        if not fn.relfile().startswith('src/') or fn.tree is None:
+            continue
+        for b, j, st in fn.cfg.stmts(conds=True):
+            for x in walk(st['s']):
+                if isinstance(x, dict) and x.get('k') == 'ConditionalOperator' and any(isinstance(y, dict) and 'callee' in y and 'assert' in (y.get('callee') or '') for y in walk([x.get('l'), x.get('r')])):
+                    if any(isinstance(y, dict) and y.get('k') == 'MemberExpr' and y.get('n') in members for y in walk(x.get('cnd'))):
+                        out.append(Obl('C03.R10', fn.name, 'assert(%s)' % show(x.get('cnd'))[:40], st['loc'], 'finding',
+                                       why='the stream is NULL whenever the file cannot be created: asserting it aborts the host in builds without NDEBUG'))
     if n < (5 if facts.view == 'noVGM' else 10):     # without the dumper only the stream of FileAndMemReader is left
         raise build.AnalysisBroken('C03.R10: only %d stdio calls on FILE* members found' % n)
     return out
@@ -765,4 +779,104 @@ def r11_null_params(facts):
                                'the pointer parameter %s is dereferenced without a NULL test (the sibling parameters of this call are tested): a null argument crashes inside the library' % short(tgt.get('n', '')), nontrivial=False))
     if n < 60:
         raise build.AnalysisBroken('C03.R11: only %d parameter dereferences found in the API' % n)
+    return out
+
+
+def r12_chip_loops(facts):
+    """OPN2::m_chips holds m_numChips entries; m_setup.numChips is the *requested* count, and the two differ whenever the synth locks
+    or clamps the setup (EA-MUS files force 2 chips, the VGM dumper clamps to 2).  A loop variable that subscripts m_chips must be
+    bounded by the live count: m_numChips of the synth, m_chips.size(), or a local defined as one of them."""
+    out = []
+    n = 0
+    for fn in facts.all_fns():
+        if fn.tree is None or not fn.relfile().startswith('src/opnmidi'):
+            continue
+        inits = {}
+        for b, j, st in fn.cfg.stmts():
+            if st['s'].get('k') == 'DeclStmt':
+                for v in st['s']['decls']:
+                    if v.get('init') is not None:
+                        inits.setdefault(v['id'], []).append(v['init'])
+            for x in walk(st['s']):
+                ap = assign_parts(x)
+                if ap and strip(ap[0]).get('k') == 'DeclRefExpr':
+                    inits.setdefault(strip(ap[0])['id'], []).append(ap[1])
+        def live(e, depth=0):
+            for y in walk(e):
+                if y.get('k') == 'MemberExpr' and short(y.get('n', '')) == 'm_numChips':
+                    return True
+                if 'callee' in y and short(callee_name(y)) == 'size' and y.get('obj') is not None and mentions(y['obj'], member_named('m_chips')):
+                    return True
+                if depth < 2 and y.get('k') == 'DeclRefExpr' and not y.get('parm') and y.get('id') in inits and all(live(d, depth + 1) for d in inits[y['id']]):
+                    return True
+            return False
+        for b, j, st in fn.cfg.stmts(conds=True):
+            for x in walk(st['s']):
+                if not (x.get('k') == 'CXXOperatorCallExpr' and 'operator[]' in (x.get('callee') or '') and x.get('a') and
+                        strip(x['a'][0]).get('k') == 'MemberExpr' and short(strip(x['a'][0])['n']) == 'm_chips'):
+                    continue
+                idx = strip(x['a'][1])
+                if const_of(idx) is not None or idx.get('k') != 'DeclRefExpr' or idx.get('parm'):
+                    continue        # constants and checked parameters are C03.R3 obligations
+                n += 1
+                bound = None
+                for f in guard_facts(fn, b, st):
+                    if f[0] == 'cmp' and f[1] == '<' and strip(f[2]).get('id') == idx.get('id'):
+                        bound = f[3]
+                ok = bound is not None and live(bound)
+                out.append(Obl('C03.R12', fn.name, 'm_chips[%s]' % show(idx), st['loc'], 'discharged' if ok else 'finding',
+                               why='%s < %s, the live chip count' % (show(idx), show(bound)) if ok else
+                               'the loop over the chips is bounded by %s, not by the live chip count: when the synth runs fewer chips than requested (EA-MUS files, VGM dumper) m_chips is read past its end' % (show(bound) if bound is not None else 'nothing')))
+    if n < 3:
+        raise build.AnalysisBroken('C03.R12: loops over m_chips not found (%d)' % n)
+    return out
+
+
+def r4_rate_divisors(facts):
+    """two divisors derived from the sample rate: (a) the fixed-point resampling ratio of the chip base (rate * 144 << frac / clock) is
+    the step of `while(samplecnt >= ratio)` and a divisor: after it is computed it is clamped to at least 1 in every instantiation of
+    setupResampler; (b) Setup::PCM_RATE is the divisor of every period of the audio loops: opn2_init constructs the player only for
+    a positive rate."""
+    out = []
+    n = 0
+    for fn in facts.all_fns():
+        if short(fn.name) != 'setupResampler' or fn.tree is None:
+            continue
+        for b, j, st in fn.cfg.stmts():
+            ap = assign_parts(st['s'])
+            if not (ap and strip(ap[0]).get('k') == 'MemberExpr' and short(strip(ap[0])['n']) == 'm_rateratio' and any(isinstance(y, dict) and y.get('k') == 'BinaryOperator' and y.get('op') == '/' for y in walk(ap[1]))):
+                continue
+            n += 1
+            ok = False
+            for b2, blk in fn.cfg.blocks.items():
+                if blk.get('term') == 'IfStmt' and 'cond' in blk and (b2 == b or fn.cfg.block_dominates(b, b2)):
+                    for f in literals(blk['cond'], True):
+                        nn = cmp_norm(f) if f[0] == 'cmp' else None
+                        if nn and mentions(nn[1], member_named('m_rateratio')) and ((nn[0] == '<' and nn[2] >= 1) or (nn[0] == '<=' and nn[2] >= 0) or (nn[0] == '==' and nn[2] == 0)):
+                            tb = fn.cfg.blocks[blk['succ'][0]]
+                            for s2 in tb['stmts']:
+                                ap2 = assign_parts(s2['s'])
+                                if ap2 and short(strip(ap2[0]).get('n', '')) == 'm_rateratio' and (const_of(ap2[1]) or 0) >= 1:
+                                    ok = True
+            out.append(Obl('C03.R4', fn.name, 'resampling ratio >= 1', st['loc'], 'discharged' if ok else 'finding',
+                           why='clamped to at least 1 after the division' if ok else
+                           'm_rateratio is the quotient rate * 144 * 2^frac / clock, which is 0 for rates of a few Hz: resampledGenerate() then loops for ever on `samplecnt >= 0` and divides by 0'))
+    if n < 1:
+        raise build.AnalysisBroken('C03.R4: computation of m_rateratio not found in setupResampler')
+    oi = facts.fn('opn2_init')
+    par = oi.params[0]['id']
+    m = 0
+    for b, j, st in oi.cfg.stmts():
+        for x in walk(st['s']):
+            if isinstance(x, dict) and (x.get('k') == 'CXXNewExpr' or (x.get('ctor') and 'OPNMIDIplay' in (x.get('callee') or ''))):
+                if not any(isinstance(y, dict) and y.get('id') == par for y in walk(x)):
+                    continue
+                m += 1
+                ok = any(f[0] == 'cmp' and strip(f[2]).get('id') == par and ((f[1] == '>' and (const_of(f[3]) or 0) >= 0) or (f[1] == '>=' and (const_of(f[3]) or 0) >= 1)) for f in guard_facts(oi, b, st))
+                out.append(Obl('C03.R4', oi.name, 'player constructed for a positive rate', st['loc'], 'discharged' if ok else 'finding',
+                               why='dominated by sample_rate > 0' if ok else
+                               'the player is constructed for any sample_rate: with 0 every period of the audio loops is k / 0, the frame count computed from it is garbage and opn2_generate() writes outside its buffers'))
+                break
+    if m < 1:
+        raise build.AnalysisBroken('C03.R4: construction of the player in opn2_init not found')
     return out
